@@ -254,14 +254,16 @@ def check(ctx):
         if k not in keys:
             ctx.missing(opt, f"record of history key '{k}' in the per-iteration record block")
     if "u" in keys:
+        from .common import deref_expr as _dx
+
         u_expr = keys["u"][1]
-        base = u_expr
+        base = _dx(prog, opt, u_expr)  # the flattened incumbent kept in a local
         while isinstance(base, ast.Call) and isinstance(base.func, ast.Attribute) and base.func.attr in ("flatten", "copy"):
             base = base.func.value
         ctx.check(canon(base) == "self.u", opt, keys["u"][0], "'u' records the incumbent self.u", "history key 'u' does not record the incumbent point self.u", construct=f"record u <- {canon(u_expr)}")
         if "x" in keys:
             xv = keys["x"][1]
-            ok = isinstance(xv, ast.Call) and isinstance(xv.func, ast.Attribute) and xv.func.attr == R.inverse.name and canon(xv.func.value) == "VT" and xv.args and canon(xv.args[0]) == canon(u_expr)
+            ok = isinstance(xv, ast.Call) and isinstance(xv.func, ast.Attribute) and xv.func.attr == R.inverse.name and canon(xv.func.value) == "VT" and xv.args and (canon(xv.args[0]) == canon(u_expr) or canon(_dx(prog, opt, xv.args[0])) == canon(_dx(prog, opt, u_expr)))
             ctx.check(bool(ok), opt, keys["x"][0], "'x' = inverse_transf(expression recorded as 'u')", "history key 'x' is not the inverse transform of the point recorded as 'u'", construct=f"record x <- {canon(xv)}")
     for k, src in want_src.items():
         if k in keys:
@@ -276,10 +278,22 @@ def check(ctx):
 
     # ------------------------------------------------------------------ R5
     ctx.rule("R5", "after the record block the incumbent point only changes to a recorded history iterate, under the noisy-mode guard", floor=2)
-    last_line = max(s.lineno for s in rec_block)
+    # 'after the record block' in CFG terms (inlined statements keep their helper's line numbers): later in the same
+    # iteration (reachable from the record of 'u' without passing the loop header) or after the loop
+    cfg_o = cfg_of(opt)
+    rn_ = cfg_o.node_of(rec_stmt)
+    after = set()
+    if rn_ is not None:
+        hdrs = [h for h, body in cfg_o.loops.items() if rn_.id in body]
+        after = cfg_o.reachable(rn_.id, avoiding=set(hdrs)) - {rn_.id}
+        for h in hdrs:
+            for x in cfg_o.succ(h, "F"):
+                after |= cfg_o.reachable(x, avoiding=set(hdrs))
+        after -= {n_.id for s_ in rec_block for n_ in [cfg_o.node_of(s_)] if n_ is not None}
     for t, v, s, k in iter_stores(opt.node):
         a = self_attr_of(t)
-        if a != "u" or not isinstance(t, ast.Attribute) or s.lineno <= last_line:
+        sn_ = cfg_o.node_of(s)
+        if a != "u" or not isinstance(t, ast.Attribute) or sn_ is None or sn_.id not in after:
             continue
         hr = hist_read(v)
         g = guard_canon(prog, opt, s)
